@@ -9,6 +9,7 @@
      deep1-3 depth 2: one slot of the outer element holds a (narrow) structural element,
              alone or followed by a closing run
      pairs / triples   two / three narrow top-level elements / runs in sequence
+     blanks  blank-only runs and runs with leading / trailing blanks at every position of every element
      symbols every character of the symbol / operator / accent tables as text, operand, attribute,
              and inside the run that closes a malformed radical (before and after the closer)
      The run that follows the trees of the other parts mixes a mapped symbol, plain characters and
@@ -18,7 +19,7 @@
 EXTENDS Omml
 
 CONSTANTS Profile,          \* "quick" | "thorough"
-          Part,             \* subset of {"wideN", "wideO", "pairs", "triples", "deep1", "deep2", "deep3", "symbols", "all"}
+          Part,             \* subset of {"wideN", "wideO", "pairs", "triples", "deep1", "deep2", "deep3", "symbols", "blanks", "all"}
           MaxStack, MaxLen  \* SpecBuild bounds
 
 VARIABLES tree, stk
@@ -145,7 +146,15 @@ Symbols == IF ~Is({"symbols"}) THEN {} ELSE
     \cup {<<[k |-> "f", num |-> << <<[k |-> "rad", deg |-> <<>>, e |-> << <<R(<<b>>)>> >>]>> >>,
                         den |-> << <<R(<<a, Closer[b], "x">>)>> >>]>> : a \in SymChars, b \in {"(", "["}}
 
-Universe == Symbols \cup
+\* blanks as run text at every position: blank-only runs (one / several blanks) between runs, first and
+\* last in an operand, runs with leading / trailing blanks -- in every kind of element
+CB == {<<R(<<"a">>), R(<<WS>>), R(<<"b">>)>>, <<R(<<WS, WS>>)>>, <<R(<<WS, "a">>)>>, <<R(<<"a", WS>>)>>,
+       <<R(<<WS>>), R(<<"a">>)>>, <<R(<<"a">>), R(<<WS, WS>>)>>, <<R(<<"x">>), R(<<WS>>), R(<<"m", "o", "d">>), R(<<WS>>), R(<<"n">>)>>}
+Blanks == IF ~Is({"blanks"}) THEN {} ELSE
+    LET B == Struct({<<c>> : c \in CB}, CB, {NoEl, Val("U+2211")}, {Val("U+0303")}, {NoEl, Val("[")}, {NoEl}, FNames)
+    IN {<<n>> : n \in B} \cup {c : c \in CB} \cup {<<R(<<"a">>), n, R(<<WS>>), R(<<"b">>)>> : n \in {m \in B : m.k \in {"f", "d", "bar"}}}
+
+Universe == Symbols \cup Blanks \cup
     {<<n>> \o c : n \in Wide, c \in Closing}
     \cup (IF Is({"wideO"}) THEN {<<R(t)>> : t \in TextsWide} \cup {<<>>} ELSE {})
     \cup {<<n>> \o c : n \in Deep1 \cup Deep2 \cup Deep3, c \in Closing2}
